@@ -31,10 +31,13 @@ def run(ctx):
 
 
 def node_part(ctx):
-    """Node links (application messages, heartbeats, stream requests): filled in by the node engine."""
-    try:
-        from checks import _node
-    except ImportError:
-        return
-    if hasattr(_node, "c09_links"):
-        _node.c09_links(ctx)
+    """Node links (application messages, heartbeats, stream requests on three custom endpoints; all initialisations)."""
+    import random
+    import scenarios
+    from checks import _node
+    scs = scenarios.fam_links(random.Random(ctx.seed), ctx.thorough())
+    defs = ctx.path("defs.json")
+    runs = _node.play(ctx, scs)
+    st = _node.validate(ctx, runs, defs, ["C09."])
+    ctx.cov["node_links"] = st["scenarios"]
+    ctx.cov["node_stats"] = st
